@@ -55,6 +55,7 @@ THEOREMS = [
     "Cotengra.C07.session_cache_sound",
     "Cotengra.C07.session_sound",
     "Cotengra.C07.orElse_spec",
+    "Cotengra.C07.bestK_sound",
 ]
 TRUSTED = [
     "Lean 4.33 kernel; axioms within {propext, Classical.choice, Quot.sound}",
@@ -136,14 +137,16 @@ def gen_case(rng, tier):
                 else:
                     q = rng.choice([1, 2, 4, 8])
                     over[k] = [rng.randint(max(1, q // 2), rng.choice([2, 4, 16]) * q), q]
-            calls.append({"over": over, "repeats": rng.choice([1, 2, 4, 8])})
+            calls.append({"over": over, "repeats": rng.choice([1, 2, 4, 8]),
+                          "temperature": rng.choice([None, None, 0.01, 0.5, 3.0]), "k": rng.choice([0, 0, 1, 2, 3, 10])})
     return {"net": net.json(), "tree": tree, "pre": pre, "targets": tg, "calls": calls,
             "reslice": reslice, "inplace": rng.random() < 0.5,
             "sar": rng.random() < (0.12 if tier == "quick" else 0.08),
             "allow_outer": rng.choice([True, True, False, False, "only"]),
             "minimize": rng.choice(OBJECTIVES), "temperature": rng.choice([0.01, 0.01, 0.3, 2.0]),
             "seed": rng.randrange(1 << 30), "repeats": rng.choice([1, 2, 4, 8, 16]),
-            "chain_seed": rng.randrange(1 << 30), "via_info": rng.random() < 0.15}
+            "chain_seed": rng.randrange(1 << 30), "via_info": rng.random() < 0.15,
+            "k": rng.choice([0, 0, 0, 1, 2, 3, 10])}
 
 
 class RecDict(dict):
@@ -246,9 +249,11 @@ def observe(case):
             picks.append(ps)
         return picks
 
-    def one_call(repeats, over):
-        o = {"over": over}
+    def one_call(repeats, over, temperature=None, k=0):
+        o = {"over": over, "k": k}
         kw = {}
+        if temperature is not None:
+            kw["temperature"] = temperature
         if "size" in over:
             kw["target_size"] = over["size"]
         if "slices" in over:
@@ -265,17 +270,25 @@ def observe(case):
         except tuple(ERR) as e:
             o["status"] = ERR[type(e)]
         o["picks"] = picks_of(rec.log)
-        o["cache"] = {tuple(sorted(us[i] for i in k)): costs_brief(v) for k, v in rec.items()}
+        o["cache"] = {tuple(sorted(us[i] for i in kk)): costs_brief(v) for kk, v in rec.items()}
+        if k and o["status"] == "ok":
+            # the list interface `best(k=...)` with the same per-call targets
+            bkw = {a: b for a, b in kw.items() if a != "temperature"}
+            try:
+                lst = sf.best(k=k, **bkw)
+                o["bestk"] = [{"key": sorted(us[i] for i in kk), "cost": costs_brief(c), "_ix": kk} for kk, c in lst]
+            except tuple(ERR) as e:
+                o["bestk"] = ERR[type(e)]
         return o
 
-    first = one_call(case["repeats"], {})
+    first = one_call(case["repeats"], {}, k=case.get("k", 0))
     obs.update({k: v for k, v in first.items() if k != "over"})
     # the later calls on the same object (only while the calls return)
     obs["calls"] = []
     for cl in case.get("calls", []):
         if (obs["calls"][-1] if obs["calls"] else first)["status"] != "ok":
             break
-        obs["calls"].append(one_call(cl["repeats"], cl["over"]))
+        obs["calls"].append(one_call(cl["repeats"], cl["over"], cl.get("temperature"), cl.get("k", 0)))
     return obs, net, tree, sf
 
 
@@ -322,7 +335,23 @@ def oracle_one(case, obs, net, tree, call, tg, tag=""):
     bad = targets_hold(case, obs["m0"], obs["flops0"], real["nslices"], real["total_flops"], real["size"], tg)
     if bad:
         return (tag + "target:" + "+".join(bad), {"tree": real, "targets_in_force": tg})
+    if isinstance(call.get("bestk"), list) and not tag.endswith("best(k):"):
+        # every slicing in the list returned by best(k=...) is judged like the one search returned
+        for j, ent in enumerate(call["bestk"]):
+            sub = {"_ix_sl": ent["_ix"], "ix_sl": ent["key"], "cost": ent["cost"]}
+            r = oracle_one(case, obs, net, tree, sub, tg, tag=tag + "best(k):")
+            if r is not None:
+                return (r[0], {"entry": j, "detail": r[1]})
+        sc = [_score(tg, e["cost"]) for e in call["bestk"]]
+        if sc != sorted(sc):
+            return (tag + "best(k):not-sorted-best-first", sc)
     return None
+
+
+def _score(tg, c):
+    sz = -1 if c["size"] is None else c["size"]
+    return [c["total_flops"], c["nslices"], sz] if ("size" in tg or "slices" in tg) else \
+        [sz, c["total_flops"], c["nslices"]]
 
 
 def oracle(case, obs, net, tree):
@@ -560,7 +589,16 @@ def chain_corr(ctx, drv, case, net, tree):
                 c._flop_reductions[k]
                 c._write_reductions[k]
         try:
-            c = c.remove(gen.sym(ix))
+            if rr.random() < 0.4:
+                # the in-place form (slicer.py:148-150): mutates and returns the object itself
+                ctx.count("chain:inplace")
+                keep = c.copy()
+                r2 = c.remove(gen.sym(ix), inplace=True)
+                if r2 is not c:
+                    ctx.corr_broken("remove(inplace=True) does not return the object itself", {"case": case})
+                del keep
+            else:
+                c = c.remove(gen.sym(ix))
         except KeyError:
             failed = ix
             ctx.count("chain:KeyError")
@@ -593,7 +631,7 @@ def search_corr(ctx, drv, case, obs, net):
             if not picks:
                 picks = [[]]
             picks[-1].append(obs["forbidden"][0])
-        mcalls.append({"over": rc["over"], "picks": picks})
+        mcalls.append({"over": rc["over"], "picks": picks, "k": rc.get("k", 0)})
     ao = {True: 1, False: 0, "only": 2}[case["allow_outer"]]
     resp = drv.call("c07.session", size_dict=obs["size_dict"], cons=obs["cons"], output=net.output,
                     allow_outer=ao, targets=case["targets"], calls=mcalls)
@@ -637,6 +675,17 @@ def search_corr(ctx, drv, case, obs, net):
                 ctx.count("best_is_model_min" if score == mc["min_score"] else "best_differs_from_model_min")
             if k >= 1:
                 ctx.count("reused_finder_call_compared")
+            if isinstance(rc.get("bestk"), list):
+                # best(k=...): same number of entries, same scores position by position (ties may be
+                # ordered differently), every real entry is a valid entry of the model's cache
+                mb = mc.get("bestk", [])
+                vkeys = {tuple(e["key"]): e for e in mc["cache"]}
+                if len(mb) != len(rc["bestk"]) or [e["score"] for e in mb] != [_score(tgs, e["cost"]) for e in rc["bestk"]] \
+                        or any(tuple(e["key"]) not in vkeys or not vkeys[tuple(e["key"])]["valid"]
+                               or vkeys[tuple(e["key"])]["cost"] != e["cost"] for e in rc["bestk"]):
+                    why = "best(k=%d) after call %d" % (rc["k"], k + 1)
+                else:
+                    ctx.count("best(k)-compared:%d" % min(len(mb), 4))
     if why:
         ctx.corr_broken("search: model and implementation disagree on " + why, case)
         return False
